@@ -49,9 +49,15 @@ def queries(g):
 
 def apply_op(g, o):
     if o["op"] == "AddNode":
-        g.add_node(name(o["n"]), "ACGT"[: 1 + o["n"] % 4])
+        if o["n"] % 3 == 0:
+            g.add_node(name(o["n"]))       # a node without sequence, as every node of a graph loaded with low_memory=True
+        else:
+            g.add_node(name(o["n"]), "ACGT"[: 1 + o["n"] % 4])
     elif o["op"] == "DelNode":
-        g.remove_node(name(o["n"]))
+        if o["n"] % 2:
+            del g[name(o["n"])]      # the documented deletion syntax (GFA.__delitem__)
+        else:
+            g.remove_node(name(o["n"]))
     else:
         g.add_edge(name(o["a"]), o["ao"], name(o["b"]), o["bo"], o["ov"], list(o["tg"]) or None)
 
@@ -69,19 +75,14 @@ def run_loaded(cid, ops, how):
         for o in ops:
             if o["op"] == "AddNode":
                 sq = "ACGT"[: 1 + o["n"] % 4]
-                lines.append(f"S\t{name(o['n'])}\t{'*' if how == 'star' else sq}\tLN:i:{len(sq)}")
+                lines.append(f"S\t{name(o['n'])}\t{'*' if how == 'star' else sq}\tLN:i:{len(sq)}" + ["", "\tSN:Z:chr1:1000-2000\tSO:i:0", "\tur:Z:file:///ref/x.fa"][o["n"] % 3])
         for o in ops:
             if o["op"] == "AddLink":
                 lines.append("\t".join(["L", name(o["a"]), o["ao"], name(o["b"]), o["bo"], f"{o['ov']}M"] + list(o["tg"])))
         path = os.path.join(d, "g.gfa" + (".gz" if how == "gz" else ""))
-        if how == "gz":
-            import gzip
+        from readers import write_text
 
-            with gzip.open(path, "wt") as f:
-                f.write("\n".join(lines) + "\n")
-        else:
-            with open(path, "w") as f:
-                f.write("\n".join(lines) + "\n")
+        write_text(path, "\n".join(lines) + "\n", "gz" if how == "gz" else "plain")      # (in one of the layouts of readers.gfa_layout)
         empty = {"nodes": [], "half": [], "etags": []}
         noq = {"exc": "", "comps": [], "bicc": [], "dfs": []}
         events = [{"o": o, "exc": "", "hasq": False, "skip": True, "proj": empty, "q": noq} for o in ops]
